@@ -120,10 +120,58 @@ def _fresh(x):
     return json.loads(json.dumps(x))
 
 
+TIMEOUT = 5.0          # seconds of CPU time per expand() call in a history
+
+
+_TIMEOUTS = [0]
+_LIMITED = []
+
+
+def _limit_memory():
+    """once per process: cap the data segment at 3 GB (a regular run needs < 100 MB per worker). On a tree where a corrupted
+    shared object makes expansions grow exponentially, a call can allocate gigabytes before the CPU-time alarm fires; with the
+    cap it gets a MemoryError instead (reported like any other difference) and the machine is not driven into swap"""
+    if not _LIMITED:
+        import resource
+        _LIMITED.append(True)
+        try:
+            soft, hard = resource.getrlimit(resource.RLIMIT_DATA)
+            cap = 3 << 30
+            if hard != resource.RLIM_INFINITY:
+                cap = min(cap, hard)
+            resource.setrlimit(resource.RLIMIT_DATA, (cap, hard))
+        except (ValueError, OSError):
+            pass
+
+
+
+class _Timeout(BaseException):
+    pass
+
+
+def _alarm(signum, frame):
+    raise _Timeout()
+
+
 def _outcome(abbr, target):
+    """['ok', result] | ['err', type, pos] | ['timeout'] (no result after TIMEOUT s of CPU time: a corrupted shared object can
+    make an expansion grow without bound; the reference never times out, so this is reported as a difference)"""
+    import signal
     from emmet import expand
+    _limit_memory()
+    old = signal.signal(signal.SIGVTALRM, _alarm)
+    # after 3 time-outs in this process the alarm drops to 0.3 s (still > 20x the slowest regular call): a tree on which
+    # expansions blow up must not stall the whole run
+    signal.setitimer(signal.ITIMER_VIRTUAL, TIMEOUT if _TIMEOUTS[0] < 3 else 0.3)
     try:
-        return ['ok', expand(abbr, target)]
+        try:
+            return ['ok', expand(abbr, target)]
+        finally:
+            signal.setitimer(signal.ITIMER_VIRTUAL, 0)
+            signal.signal(signal.SIGVTALRM, old)
+    except _Timeout:
+        _TIMEOUTS[0] += 1
+        return ['timeout', 'no result after %.0f s of CPU time' % TIMEOUT]
     except Exception as e:
         return ['err', type(e).__name__, getattr(e, 'pos', None)]
 
@@ -274,17 +322,31 @@ def check_retention(steps, repeats):
         gc.freeze()
         _FROZEN.append(True)
     objs, caches = {}, {}
-    for _ in range(2):
-        for s in steps:
-            _run_step(s, objs, caches)
+    hist = '; '.join('expand(%r, %s)' % (s['abbr'], json.dumps(s['cfg'], sort_keys=True)) for s in steps)
+
+    def blown(o, rnd):
+        # a repetition of calls that returned before does not return any more (or exhausts memory): whatever was kept from the
+        # earlier calls has grown without bound; the huge structures are dropped right away instead of being measured
+        if o[0] == 'timeout' or (o[0] == 'err' and o[1] == 'MemoryError'):
+            return 'repeating the calls [%s] (shared objects / caches kept by the caller): in round %d a call gave %r' % (hist, rnd, o)
+
+    first = []
+    for rnd in range(2):
+        for i, s in enumerate(steps):
+            o = _run_step(s, objs, caches)
+            if rnd == 0:
+                first.append(o)
+            elif blown(o, rnd + 1) and not blown(first[i], 1):
+                return blown(o, rnd + 1)
     a = snapshot()
-    for _ in range(repeats):
-        for s in steps:
-            _run_step(s, objs, caches)
+    for rnd in range(repeats):
+        for i, s in enumerate(steps):
+            o = _run_step(s, objs, caches)
+            if blown(o, rnd + 3) and not blown(first[i], 1):
+                return blown(o, rnd + 3)
     b = snapshot()
     grown = ['%s: %d -> %d' % (k, a.get(k, 0), v) for k, v in sorted(b.items()) if v > a.get(k, 0)]
     if grown:
-        hist = '; '.join('expand(%r, %s)' % (s['abbr'], json.dumps(s['cfg'], sort_keys=True)) for s in steps)
         return 'repeating the calls [%s] %d more times (results dropped, gc.collect()) made library-held data grow: %s' % (
             hist, repeats, ', '.join(grown[:8]))
     return None
